@@ -40,15 +40,19 @@ def Bounded (L : Layout) (ck : Checksum) : Writer → List Call → Prop
      | .commit heads _ fact => (w.commit L ck heads fact).1.root.Bounded) ∧
     Bounded L ck (w.step L ck c).1 cs
 
+/-- the committed root after a completed call -/
+def Call.doneAfter (c : Call) (r : Root) (done : Option Root) : Option Root :=
+  match c with
+  | .commit _ _ _ => some r
+  | .append _ _ => done
+
 /-- root of the last commit all of whose ops are among the first `n` ops of the trace -/
 def doneFrom (L : Layout) (ck : Checksum) (w : Writer) (done : Option Root) : List Call → Nat → Option Root
   | [], _ => done
   | c :: cs, n =>
     if n < (w.step L ck c).2.length then done
-    else doneFrom L ck (w.step L ck c).1
-      (match c with
-       | .commit _ _ _ => some (w.step L ck c).1.root
-       | .append _ _ => done) cs (n - (w.step L ck c).2.length)
+    else doneFrom L ck (w.step L ck c).1 (c.doneAfter (w.step L ck c).1.root done) cs
+      (n - (w.step L ck c).2.length)
 
 /-- root of the commit whose root write has started but whose final barrier has not returned
 after the first `n` ops (the last three ops of a commit are: prefix write, body write, barrier) -/
